@@ -95,8 +95,23 @@ fn corpus_files() -> Vec<(String, String)> {
             out.push((p.to_string_lossy().to_string(), t));
         }
     }
+    out.push(("harness:macro-corpus".to_string(), MACRO_CORPUS.to_string()));
     out
 }
+
+/// the harness's own valid program: macros whose templates combine pattern variables of several
+/// ellipses (a token-level mutation makes the matched sequences unequal, empty or misnested)
+pub const MACRO_CORPUS: &str = "(define-syntax zip (syntax-rules () ((zip (a ...) (b ...)) '((a b) ...))))
+(zip (1 2 3) (4 5 6))
+(define-syntax rot (syntax-rules () ((rot (a b ...) ...) '((b ... a) ...))))
+(rot (1 2 3) (4 5 6) (7 8 9))
+(define-syntax my-let (syntax-rules () ((my-let ((n v) ...) body ...) ((lambda (n ...) body ...) v ...))))
+(my-let ((p 1) (q 2)) (list p q))
+(define-syntax two (syntax-rules (sep) ((two a ... sep b ...) (list (list a ...) (list b ...) (list (list a b) ...)))))
+(two 1 2 sep 3 4)
+(define-syntax flat (syntax-rules () ((flat (a ...) ...) '(a ... ...)) ((flat . r) 'other)))
+(flat (1 2) (3) ())
+";
 
 /// split a source text into tokens and the separators between them (a crude splitter of the
 /// harness's own: parens, quote, strings, comments and atoms)
@@ -256,6 +271,40 @@ impl Spaces {
                     d[pos] = b;
                     bytes_cases.push((format!("{} byte {} := {:#x}", name, pos, b), d, kind));
                 }
+            }
+        }
+        // exotic characters (byte-order mark, NUL, line separators, combining marks, ...) at the
+        // places where file reading differs from evaluating a string: start of file, start of a
+        // later line, end of file without newline; every pair of them at the start; line-end forms
+        let prog_s = "(import (scheme base))\n(define (f a) (car a)) ; c\n(f '(1 2))\n";
+        let lib_s = "(define-library (blib)\n (export bv)\n (import (scheme base))\n (begin (define bv 1)))\n";
+        for (name, base, kind) in [("program", prog_s, "eval_file"), ("library", lib_s, "file-import")] {
+            let second_line = base.find('\n').unwrap() + 1;
+            for e in EXOTIC {
+                for (where_, at) in [("start of file", 0usize), ("start of line 2", second_line), ("end of file", base.len()), ("before the final newline", base.len() - 1)] {
+                    let mut t = base.to_string();
+                    t.insert(at, *e);
+                    bytes_cases.push((format!("{} with {:?} at {}", name, e, where_), t.into_bytes(), kind));
+                }
+                for e2 in EXOTIC {
+                    bytes_cases.push((format!("{} starting with {:?}{:?}", name, e, e2), format!("{}{}{}", e, e2, base).into_bytes(), kind));
+                }
+            }
+            for (label, t) in [
+                ("without final newline", base.trim_end().to_string()),
+                ("with CRLF line ends", base.replace('\n', "\r\n")),
+                ("with CR line ends", base.replace('\n', "\r")),
+                ("empty", String::new()),
+                ("only a byte-order mark", "\u{feff}".to_string()),
+                ("only newlines", "\n\n\n".to_string()),
+                ("ending inside a string", format!("{}\"abc", base)),
+                ("ending inside a |symbol|", format!("{}|abc", base)),
+                ("ending after a quote mark", format!("{}'", base)),
+                ("ending inside a list", format!("{}(car", base)),
+                ("ending after #", format!("{}#", base)),
+                ("ending after #\\", format!("{}#\\", base)),
+            ] {
+                bytes_cases.push((format!("{} {}", name, label), t.into_bytes(), kind));
             }
         }
         bytes_cases.push(("program path is a directory".into(), vec![], "eval_file-directory"));
